@@ -1,5 +1,5 @@
 //! C02 — Accepted proofs are tamper-evident at every position.
-use super::c03::{items, predict, security_bits, Item};
+use super::c03::{extra_accepted, items, predict, security_bits, Item};
 use crate::engine::*;
 use crate::layouts::verify_as;
 use crate::mutate::*;
@@ -35,6 +35,11 @@ pub fn slot_edit(img: &Value, s: &Slot, which: u8, seed: u64) -> Option<Edit> {
     Some(Edit::Set { ptr: s.ptr.clone(), val })
 }
 
+/// JSON pointer with array indices replaced by '*' (stable across positions of one vector)
+pub fn strip_indices(ptr: &str) -> String {
+    ptr.split('/').map(|s| if !s.is_empty() && s.bytes().all(|b| b.is_ascii_digit()) { "*" } else { s }).collect::<Vec<_>>().join("/")
+}
+
 pub fn judge(it: &Item, edit: &Edit) -> Outcome {
     let f = fp(&(&it.name, edit));
     let group = group_of(edit.ptr());
@@ -55,12 +60,22 @@ pub fn judge(it: &Item, edit: &Edit) -> Outcome {
     if m == it.proof {
         return Outcome::trivial("skip/mutant_equals_original");
     }
-    let v = verify_as(&it.layout, &m, security_bits(&it.proof), false);
+    // the caller's security level is not part of the proof: a mutant counts as accepted if it is
+    // accepted at the base proof's own level or at a lower one a caller may ask for
+    let own = security_bits(&it.proof);
+    let v = {
+        let a = verify_as(&it.layout, &m, own, false);
+        if a.accepted() {
+            a
+        } else {
+            verify_as(&it.layout, &m, Felt::from(20u64), false)
+        }
+    };
     if v.accepted() {
         Outcome::failed(
             class,
             f,
-            format!("c02:accepted:{}:{}", group, ek),
+            format!("c02:accepted:{}:{}", strip_indices(edit.ptr()), ek),
             format!("{}: proof still accepted after {:?}", it.name, edit),
         )
     } else {
@@ -92,8 +107,12 @@ pub fn select<'a>(ctx: &Ctx, its: &'a [Item]) -> Vec<&'a Item> {
 
 pub fn run(ctx: &Ctx) -> Report {
     let mut rep = Report::new();
-    let its = items(ctx, &mut rep);
-    let sel = select(ctx, &its);
+    let mut its = items(ctx, &mut rep);
+    let n_stone = its.len();
+    its.extend(extra_accepted(&mut rep));
+    let mut sel = select(ctx, &its[..n_stone]);
+    // corpus proofs accepted under this build are always included
+    sel.extend(its[n_stone..].iter().filter(|it| predict(it, &it.layout).0));
     if sel.is_empty() {
         rep.notes.push("no accepted proof under this build".into());
         return rep;
@@ -110,7 +129,8 @@ pub fn run(ctx: &Ctx) -> Report {
         let (slots, vecs) = enumerate(&img);
         for (si, s) in slots.iter().enumerate() {
             let seed = mix(mix(ctx.seed, ii as u64), si as u64);
-            if ctx.quick() {
+            let few = s.ptr.starts_with("/config") || (s.ptr.starts_with("/public_input") && !s.ptr.starts_with("/public_input/main_page") && !s.ptr.starts_with("/public_input/dynamic_params")) || s.ptr.starts_with("/unsent_commitment/proof_of_work");
+            if ctx.quick() && !few {
                 // every position once with a PRF-chosen edit kind, + 5% with all the others
                 let k0 = (prf_u64(seed, 0) % 6) as u8;
                 let mut done = false;
@@ -176,11 +196,12 @@ pub fn run(ctx: &Ctx) -> Report {
 
 pub fn replay(ctx: &Ctx, v: &Value) -> Result<Outcome, String> {
     let mut rep = Report::new();
-    let its = items(ctx, &mut rep);
+    let mut its = items(ctx, &mut rep);
+    its.extend(extra_accepted(&mut rep));
     let name = v["case"]["proof"].as_str().ok_or("proof")?;
     let it = its.iter().find(|i| i.name == name).ok_or("unknown proof")?;
     let e: Edit = serde_json::from_value(v["case"]["edit"].clone()).map_err(|e| e.to_string())?;
     Ok(judge(it, &e))
 }
 
-pub const RULE: &str = "for every proof accepted under the build (quick: one per layout family, preferring masked-hash proofs, plus the fixture; thorough: all), every scalar slot of the proof's serde image (config numbers incl. nested table/vector/FRI configs, public-input scalars, dynamic parameters, segments, padding, main-page cells, commitments, OODS values, FRI commitments, last-layer coefficients, nonce, decommitted cells, authentication nodes, FRI leaves and FRI authentication nodes) is replaced (PRF-random / +1 / -1 / 0 / copy of a sibling / single bit flip; quick: every position once + 5% with all kinds, thorough: all kinds) and every vector has one element deleted (first, last, PRF interior); appending is not generated. Oracle: mutant != original structurally => verify must not return Ok (positive control: the unmodified proof is accepted). Non-trivial = distinct (proof, path, edit) with mutant != original; class histogram by slot group x edit kind";
+pub const RULE: &str = "for every proof accepted under the build (quick: one per layout family, preferring masked-hash proofs, plus the fixture; thorough: all), every scalar slot of the proof's serde image (config numbers incl. nested table/vector/FRI configs, public-input scalars, dynamic parameters, segments, padding, main-page cells, commitments, OODS values, FRI commitments, last-layer coefficients, nonce, decommitted cells, authentication nodes, FRI leaves and FRI authentication nodes) is replaced (PRF-random / +1 / -1 / 0 / copy of a sibling / single bit flip; quick: configuration and public-input scalars with all kinds, every other position once + 5% with all kinds; thorough: all kinds) and every vector has one element deleted (first, last, PRF interior); appending is not generated. Bases also include the accepted proofs kept under corpus/accepted. Oracle: mutant != original structurally => verify must not return Ok, neither at the base proof's own security level nor at a lower caller-chosen level (20) (positive control: the unmodified proof is accepted). Non-trivial = distinct (proof, path, edit) with mutant != original; class histogram by slot group x edit kind";
